@@ -31,14 +31,14 @@ type Dgram struct {
 // DNet is the simulated datagram network. Writes append to Pending; only the
 // simulator goroutine moves datagrams on.
 type DNet struct {
-	env     *Env
-	mu      sync.Mutex
-	socks   map[string]*DSock
-	Pending []*Dgram
-	nextID  int
-	peers   map[string]func(d *Dgram) // scripted peers: datagrams are handed to the simulator
-	groups  map[string][]*DSock
-	Sent    []*Dgram // complete write log (every datagram ever written), in write order
+	env      *Env
+	mu       sync.Mutex
+	socks    map[string]*DSock
+	Pending  []*Dgram
+	nextID   int
+	peers    map[string]func(d *Dgram) // scripted peers: datagrams are handed to the simulator
+	groups   map[string][]*DSock
+	Sent     []*Dgram                          // complete write log (every datagram ever written), in write order
 	WriteErr func(src, dst *net.UDPAddr) error // optional injected write error
 }
 
